@@ -569,11 +569,11 @@ pub open spec fn roll_keep(size: int, remaining: int, max: int, file_ts: Seq<cha
     size + remaining <= max && file_ts == now_ts
 }
 
-// the roll decision b for a file: STRICT counts the separator that a file which needs recovery gets written FIRST
-// (C11: "the batch would take the current file past the size limit"); the tree before F22 did not
+// the roll decision b for a file: the separator that a file which needs recovery gets written FIRST counts (F31; C11:
+// "the batch would take the current file past the size limit"). (`strict` is kept as a parameter for a future
+// transitional form; it has no effect.)
 pub open spec fn roll_decision(f: ActiveFile, sep: Seq<u8>, remaining: int, max: int, now_ts: Seq<char>, strict: bool, b: bool) -> bool {
-    ||| b == roll_keep(f.file_size_bytes + (if f.file_needs_recovery { sep.len() as int } else { 0 }), remaining, max, f.file_ts@, now_ts)
-    ||| !strict && b == roll_keep(f.file_size_bytes as int, remaining, max, f.file_ts@, now_ts)
+    b == roll_keep(f.file_size_bytes + (if f.file_needs_recovery { sep.len() as int } else { 0 }), remaining, max, f.file_ts@, now_ts)
 }
 
 // std (trusted): Option::filter calls the predicate on a present value and keeps it iff it says so
